@@ -619,6 +619,7 @@ dispatch_io_create_with_io(dispatch_io_type_t type, dispatch_io_t in_channel,
 					_dispatch_io_init(channel, fd_entry, queue, 0,
 							cleanup_handler);
 					dispatch_resume(channel->queue);
+					_dispatch_object_debug(channel, "%s", __func__);
 					_dispatch_release(channel);
 					_dispatch_release(queue);
 				});
@@ -629,11 +630,11 @@ dispatch_io_create_with_io(dispatch_io_type_t type, dispatch_io_t in_channel,
 				_dispatch_fd_entry_retain(fd_entry);
 				_dispatch_io_init(channel, fd_entry, queue, 0, cleanup_handler);
 				dispatch_resume(channel->queue);
+				_dispatch_object_debug(channel, "%s", __func__);
 				_dispatch_release(channel);
 				_dispatch_release(queue);
 			}
 			_dispatch_release(in_channel);
-			_dispatch_object_debug(channel, "%s", __func__);
 		});
 	});
 	_dispatch_object_debug(channel, "%s", __func__);
